@@ -16,7 +16,7 @@ In == /\ l <= Len(Trace) /\ Ev.op = "in" /\ cur = None
       /\ (Ev.must => adm')
       /\ UNCHANGED vars
 Out == /\ l <= Len(Trace) /\ Ev.op = "out" /\ cur # None
-       /\ (adm => Fragmented(cur, Ev.o))
+       /\ ((adm => Fragmented(cur, Ev.o)) = TRUE)
        /\ (IF adm THEN TRUE ELSE TLCSet(2, TLCGet(2) + 1))
        /\ cur' = None /\ adm' = FALSE /\ l' = l + 1
        /\ UNCHANGED vars
